@@ -198,6 +198,7 @@ def build_handler(prog: dict, rec: Recorder):
     from aws_durable_execution_sdk_python.config import (
         CallbackConfig, ChildConfig, CompletionConfig, Duration, InvokeConfig, MapConfig, ParallelConfig,
         StepConfig, StepSemantics, WaitForCallbackConfig)
+    from aws_durable_execution_sdk_python.exceptions import InvocationError
     from aws_durable_execution_sdk_python.retries import RetryDecision
     from aws_durable_execution_sdk_python.waits import WaitForConditionConfig, WaitForConditionDecision
 
@@ -243,7 +244,7 @@ def build_handler(prog: dict, rec: Recorder):
             v = thunk()
         except Exception as e:  # ordinary errors only: SDK BaseExceptions (suspend, orphan, background) propagate
             rec.deliver(path, "error", exc_repr(e))
-            if node.get("caught"):
+            if node.get("caught") and not isinstance(e, InvocationError):   # invocation-level errors must propagate
                 obs.append("E:" + exc_repr(e))
                 return None
             raise
